@@ -432,4 +432,9 @@ fn preprocess_text(plan: &hb_ot_shape_plan_t, face: &hb_font_t, buffer: &mut hb_
 #[allow(unused_imports, dead_code, missing_docs)]
 pub mod verif_hooks {
     use super::*;
+
+    /// The Thai/Lao text preprocessing pass (SARA AM decomposition + NIKHAHIT reordering) on a bare buffer.
+    pub fn preprocess(plan: &hb_ot_shape_plan_t, face: &hb_font_t, buffer: &mut hb_buffer_t) {
+        preprocess_text(plan, face, buffer)
+    }
 }
